@@ -301,6 +301,43 @@ def all_fields(t):
     x.update({"Meta": m, "Features": [f, dict(f)]})
     return x
 
+CLEAN_TEXT = ["", "x", "pUC cloning vector.", "E. coli", "Direct Submission", "Gene. 1983 Dec;26(1):101-6.", "6323249", "a b c"]
+
+def clean_value(r):
+    """a value inside the domains in which C03 / C14 judge genbank.Build / gff.Build (named record, letters only, valid
+    location structures written from the tree, plain qualifiers): here the writers' models applied to the model's views
+    must print exactly what the real writers print"""
+    n = r.choice([1, 9, 60, 61, 70, 71, 150])
+    seq = randword(r, "ACGT", n)
+    def leaf():
+        a = r.randint(0, n - 1); b = r.randint(a + 1, n)
+        return {"start": a, "end": b, "c": r.random() < 0.3, "j": False, "p5": r.random() < 0.2, "p3": r.random() < 0.2, "subs": None}
+    def loc():
+        if r.random() < 0.6:
+            return leaf()
+        return {"start": 0, "end": 0, "c": r.random() < 0.3, "j": True, "p5": False, "p3": False,
+                "subs": [leaf() for _ in range(r.randint(2, 3))]}
+    feats = []
+    for _ in range(r.choice([0, 1, 2, 4])):
+        keys = r.sample(["gene", "label", "note", "product", "codon_start"], r.randint(0, 3))
+        feats.append({"Name": r.choice(["", "chr1"]), "Source": r.choice(["", "feature", "GenBank"]),
+                      "Type": r.choice(["CDS", "gene", "misc_feature", "source"]), "Score": r.choice(["", ".", "0.5"]),
+                      "Strand": r.choice(["", "+", "-", "."]), "Phase": r.choice(["", ".", "0"]),
+                      "Attributes": {k: r.choice(CLEAN_TEXT[1:]) for k in keys} if keys or r.random() < 0.5 else None,
+                      "loc": loc(), "parent": seq})
+    circ = r.random() < 0.5
+    m = {"Name": r.choice(["", "pX1"]), "GffVersion": r.choice(["", "3"]),
+         "Definition": r.choice(CLEAN_TEXT), "Accession": r.choice(["", "X1"]), "Version": r.choice(["", "X1.1"]),
+         "Keywords": r.choice(CLEAN_TEXT), "Source": r.choice(CLEAN_TEXT), "Organism": r.choice(CLEAN_TEXT),
+         "Locus": {"Name": "pX1", "SequenceLength": str(n), "MoleculeType": r.choice(["DNA", "RNA", ""]),
+                   "GenbankDivision": r.choice(["SYN", "BCT", ""]), "ModificationDate": r.choice(["22-OCT-2019", ""]),
+                   "Circular": circ, "Linear": (not circ) and r.random() < 0.7},
+         "References": r.choice([None, [], [{"Authors": "A, B", "Title": r.choice(CLEAN_TEXT), "Journal": r.choice(CLEAN_TEXT),
+                                             "PubMed": r.choice(["", "6323249"]), "Remark": r.choice(CLEAN_TEXT),
+                                             "Range": "(bases 1 to %d)" % n} for _ in range(r.randint(1, 3))]]),
+         "Other": r.choice([None, {}, {k: r.choice(CLEAN_TEXT[1:]) for k in r.sample(["COMMENT", "DBLINK", "PRIMARY"], r.randint(1, 3))}])}
+    return {"Meta": m, "Sequence": seq, "Features": feats if feats or r.random() < 0.5 else None}
+
 def collection_grid():
     """every combination of nil / empty / non-empty at the five kinds of collection"""
     states = ["nil", "empty", "some"]
@@ -527,10 +564,12 @@ def cases(seed, tier):
     # what the real genbank.Build / gff.Build print (the tie behind convert_same_gbk / convert_same_gff)
     PLAIN[0] = True
     try:
-        for i in range(n_rt // 4):
+        for i in range(n_rt // 4 - n_rt // 10):
             yield ["rt", canon(rsequence(r, 4))]
     finally:
         PLAIN[0] = False
+    for i in range(n_rt // 10):
+        yield ["rt", canon(clean_value(r))]
     # map keys whose UTF-8 (= code point) order differs from their UTF-16 order, in one map
     yield ["rt", canon({"Meta": {"Other": {"\ue000": "a", "\uffff": "b", "\U00010000": "c", "\U0010ffff": "d", "~": "e", "": "f"}},
                         "Features": [{"Attributes": {"\uffff": "1", "\U00010000": "2", "\ue000": "3"},
@@ -608,7 +647,8 @@ RULE = ("rt: the zero value; every combination of nil / empty / non-empty at the
         "complement/join/partial flags and nil or empty leaves, evaluable and out-of-range coordinates incl. int64 extremes, "
         "linked / nil / foreign parent pointers, nil-empty-populated maps and reference lists, strings drawn from plain words, "
         "JSON-special text (quotes, backslash, <>&, control characters incl. NUL, U+2028/9, U+FFFD) and non-ASCII of 2, 3 and 4 "
-        "UTF-8 bytes, and numeric-looking text in forms a number-canonicalising codec would alter (1e-5, 12.30, 100.0, +1, 007, "
+        "UTF-8 bytes; values inside the judge domains of C03 / C14 (a tenth as many as random ones) on which the writer "
+        "models are compared with the real writers; numeric-looking text in forms a number-canonicalising codec would alter (1e-5, 12.30, 100.0, +1, 007, "
         ".5, 5., -0, 1e400, NaN, Inf, ...); every string field at once through each special / non-ASCII / numeric text; "
         "a quarter as many printable-ASCII values on which the C03/C14 writer models are compared with the real "
         "writers); up to 40 features, 30 references, 40 map entries, identical features / references / map values, strings of "
@@ -642,7 +682,9 @@ ASSUMPTIONS = ["NAMED EXCLUSION invalid-utf8: 'non-ASCII text' in the quantifier
                "`relinked` / `relinked_reports` carry that hypothesis, `relinked_any` covers any text for any report function; on "
                "non-ASCII parents the check compares the real GetSequence before and after only",
                "maps are represented key-sorted with distinct keys in the model (a Go map has no order)",
-               "the writers' models (C03/C14) are over printable ASCII without integer overflow in Start+1; outside that the conversion "
+               "the writers' models (C03/C14) are compared with the real writers only inside the domains in which C03 / C14 judge them "
+               "(Spec.GbStrict.wfSeqJ with a named record; Spec.GffLayout.wfBuild; printable ASCII, no overflow in Start+1): what Build "
+               "prints for a nameless record, an empty sequence, odd feature keys … is not this property's subject; outside those domains the conversion "
                "clause rests on the general theorem convert_same plus byte comparison of the real writers' outputs on every case",
                "json.Unmarshal's case-insensitive member matching and duplicate-member behaviour are not modelled (no document "
                "written by json.Marshal for these types needs them: tags_nodup)"]
@@ -684,7 +726,12 @@ LEVEL_TEXT = ("Kernel-checked for all values (any strings, integers, list length
               "(Marshal/Parse, Write/Read, MarshalIndent/Unmarshal), every step guarded separately: a step that fails after the direct "
               "build succeeded is a FAIL, as is any panic / error / crash / race / timeout reply.")
 LEVEL_NOTE = ("Trusted: Lean kernel; extractor and harness; encoding/json's text layer (corresponded only); the C03/C14 writer models and "
-              "the field views (corresponded). ACCEPTED FALSE ALARM: adding `omitempty` to a field keeps the property true (a missing "
+              "the field views (corresponded). A struct that gains a field: no case fails for it (values are also compared field by field by reflection in the harness, and the "
+              "known fields by the spec relation), but the run ends with `VIOLATION ... no-failing-input-found` naming fields_expected "
+              "and the correspondence `model-knows-every-field`: the model and the theorems do not cover the new member until it is "
+              "added to them - an alarm about the proof, not about the code. GetSequence is corresponded with its model only where "
+              "the location evaluates (coordinates inside the sequence) and only on features linked to the value; elsewhere only "
+              "before = after is judged. ACCEPTED FALSE ALARM: adding `omitempty` to a field keeps the property true (a missing "
               "member decodes to the zero value; nil and empty collections are equal values) and the model follows it (encStruct "
               "omits empty values, so correspondence and judge stay green), but plain_fields and the table-evaluated round-trip lemmas "
               "no longer check: the run ends with `VIOLATION ... no-failing-input-found` naming those obligations. Exact preservation "
